@@ -199,6 +199,7 @@ func runC06(c *Ctx) {
 	c03Verify(c)
 	c.RulePrefix = ""
 	c06AuthGate(c)
+	c06AbortableGroup(c)
 }
 
 // ---- who may decrement / increment the counter ------------------------------------------
@@ -1384,6 +1385,21 @@ func (m *tqModel) deliveries() {
 							continue // copying the flag (Append)
 						}
 						c.Check(fn == m.htr, "R8", "completed-set:"+FnName(fn), p.InstrPos(in), "objects are marked completed only by a successful result", "objects.completed is set outside handleTransferResult")
+					if fn == m.htr {
+						// ... and there only when the result carries no error: a repeated Add of a completed OID is
+						// answered at once as delivered (deliver:duplicate-after-completion)
+						pass := PassEdges(fn, func(cond ssa.Value) (bool, bool) {
+							e, trueMeansNil, ok := IsErrNilCheck(cond)
+							if ok {
+								if _, f, _, isF := FieldOf(e); isF && f == "Error" {
+									return trueMeansNil, true
+								}
+							}
+							return false, false
+						})
+						g, path := Guarded(fn.Blocks[0], in, pass, nil)
+						c.Check(g && nonVacuous(pass), "R8", "completed-only-on-success", p.InstrPos(in), "an OID is marked completed only for a result without error", "an OID is marked completed although its transfer failed: a later Add of the same OID is reported to the watchers as transferred while no object was stored: "+path)
+					}
 					}
 				}
 			}
@@ -1707,4 +1723,69 @@ func c06AuthGate(c *Ctx) {
 	}
 	c.AtLeast("R12", "flag clearing sites", nClear, 1)
 	c.AtLeast("R12", "gate release sites", nDone, 2)
+}
+
+// c06AbortableGroup (R7, the abortable wait group): Abort() zeroes the group so that Wait() returns; after that
+// neither Add nor Done may touch the underlying sync.WaitGroup any more (an Add would make Wait block for an
+// object nobody will ever settle, a Done would drive the counter negative). Decided: in Add and Done every change
+// of the counter and of the sync.WaitGroup is guarded by `!abort`; Abort sets the flag and subtracts exactly the
+// counter.
+func c06AbortableGroup(c *Ctx) {
+	p := c.P
+	for _, name := range []string{"Add", "Done"} {
+		fn := p.Fn("tq", "(*abortableWaitGroup)."+name)
+		if fn == nil {
+			c.Missing("R7", "(*tq.abortableWaitGroup)."+name, "not found")
+			continue
+		}
+		pass := PassEdges(fn, func(cond ssa.Value) (bool, bool) {
+			if _, f, _, ok := FieldOf(cond); ok && f == "abort" {
+				return false, true
+			}
+			return false, false
+		})
+		n := 0
+		for _, b := range fn.Blocks {
+			for _, in := range b.Instrs {
+				isSink := false
+				if cc := AsCall(in); cc != nil && strings.HasPrefix(CalleeName(cc), "(*sync.WaitGroup).") {
+					if _, isDefer := in.(*ssa.Defer); !isDefer {
+						isSink = true
+					}
+				}
+				if st, ok := in.(*ssa.Store); ok {
+					if fa, ok := st.Addr.(*ssa.FieldAddr); ok {
+						if _, f := fieldAddrName(fa); f == "counter" {
+							isSink = true
+						}
+					}
+				}
+				if !isSink {
+					continue
+				}
+				n++
+				g, path := Guarded(fn.Blocks[0], in, pass, nil)
+				c.Check(g && nonVacuous(pass), "R7", fmt.Sprintf("abortable-group:%s-ignored-after-abort#%d", name, n), p.InstrPos(in), "no effect once the group was aborted",
+					"abortableWaitGroup."+name+" still changes the counter / the wait group after Abort(): an object added to an aborted queue makes Wait() block for ever (nothing will settle it): "+path)
+			}
+		}
+		c.AtLeast("R7", "counter/wait-group changes in abortableWaitGroup."+name, n, 2)
+	}
+	if ab := p.Fn("tq", "(*abortableWaitGroup).Abort"); ab != nil {
+		sets := false
+		for _, b := range ab.Blocks {
+			for _, in := range b.Instrs {
+				if st, ok := in.(*ssa.Store); ok {
+					if fa, ok := st.Addr.(*ssa.FieldAddr); ok {
+						if _, f := fieldAddrName(fa); f == "abort" {
+							if bv, isC := ConstBool(st.Val); isC && bv {
+								sets = true
+							}
+						}
+					}
+				}
+			}
+		}
+		c.Check(sets, "R7", "abortable-group:Abort-sets-flag", p.Pos(ab.Pos()), "Abort marks the group aborted", "Abort does not set the aborted flag")
+	}
 }
